@@ -71,6 +71,7 @@ type asmCase struct {
 	Rule   *asmRule `json:"rule,omitempty"`
 	Creds  string   `json:"creds"` // none good bad
 	Slash  bool     `json:"encoded_slash,omitempty"`
+	Accept *string  `json:"accept"`           // Accept header (nil = absent)
 	Login  *string  `json:"login_url_header"` // X-Login-Url request header (nil = absent): what redir_hdr's `to` template renders
 	id     int
 }
@@ -601,6 +602,8 @@ func asmGenBatch(r *vf.Rand, i int) asmBatch {
 		b.Default = asmGenRule(r, r.Bool(), true)
 	}
 
+	b.R.Verbose = i%2 == 0
+
 	if i%2 == 1 {
 		b.R = stacks.Respond{
 			Verbose: r.Bool(),
@@ -617,6 +620,12 @@ func asmGenBatch(r *vf.Rand, i int) asmBatch {
 
 func asmGenCase(r *vf.Rand, b asmBatch, batch int) asmCase {
 	c := asmCase{Batch: batch, Creds: vf.Pick(r, []string{"none", "good", "bad", "none", "good"}), Slash: r.Chance(15)}
+
+	if !r.Chance(25) {
+		a := vf.Pick(r, []string{"application/json", "text/html", "*/*", "image/png", "application/pdf;q=0.9", "foo", "garbage;;",
+			"text/html;q=0, application/json;q=0, text/plain;q=0, application/xml;q=0"})
+		c.Accept = &a
+	}
 
 	switch x := r.Intn(100); {
 	case x < 45:
@@ -691,6 +700,10 @@ func asmHeaders(c asmCase) map[string]string {
 
 	if c.Login != nil {
 		h["X-Login-Url"] = *c.Login
+	}
+
+	if c.Accept != nil {
+		h["Accept"] = *c.Accept
 	}
 
 	return h
